@@ -37,6 +37,7 @@ type c15RJScen struct {
 	Invite        int64            `json:"invite"`
 	UsersDefault  int64            `json:"users_default"`
 	Users         map[string]int64 `json:"users"`
+	AllowedWeak   bool             `json:"allowed_weak"` // power levels of the ALLOWED rooms: false = everybody may invite there, true = nobody may
 	Create        string           `json:"create"` // err | nil | ok
 	ExtraCreators []string         `json:"extra_creators"`
 }
@@ -61,6 +62,7 @@ type c15RJQuerier struct {
 	ver    gmsl.RoomVersion
 	jr, pl gmsl.PDU
 	create gmsl.PDU
+	plOther gmsl.PDU
 }
 
 func c15TryBuild(ver gmsl.RoomVersion, proto gmsl.ProtoEvent) (ev gmsl.PDU) {
@@ -107,6 +109,12 @@ func newC15RJQuerier(log *c15Log, ver gmsl.RoomVersion, s c15RJScen) *c15RJQueri
 		q.pl = c15TryBuild(bv, gmsl.ProtoEvent{SenderID: "@creator:local", RoomID: c15ReqRoom, Type: spec.MRoomPowerLevels, StateKey: &empty, Depth: 4,
 			Content: c15JSON(c15Obj{"invite": s.Invite, "users_default": s.UsersDefault, "users": users})})
 	}
+	other := c15Obj{"invite": 0, "users_default": 100}
+	if s.AllowedWeak {
+		other = c15Obj{"invite": 100, "users_default": 0}
+	}
+	q.plOther = c15TryBuild(bv, gmsl.ProtoEvent{SenderID: "@creator:local", RoomID: "!allowed:local", Type: spec.MRoomPowerLevels, StateKey: &empty, Depth: 4,
+		Content: c15JSON(other)})
 	if s.Create == "ok" {
 		content := c15Obj{"room_version": string(bv)}
 		if len(s.ExtraCreators) > 0 {
@@ -130,6 +138,10 @@ func (q *c15RJQuerier) CurrentStateEvent(ctx context.Context, roomID spec.RoomID
 		}
 		return q.jr, nil
 	case spec.MRoomPowerLevels:
+		if roomID.String() != c15ReqRoom {
+			// another room's power levels (they differ from the joined room's on purpose)
+			return q.plOther, nil
+		}
 		if q.s.Power == "err" {
 			return nil, errC15Querier
 		}
@@ -605,6 +617,8 @@ func c15RJMuts() []c15RJMut {
 		{"invite level 0", func(s *c15RJScen) { s.Invite = 0 }},
 		{"invite level negative", func(s *c15RJScen) { s.Invite = -5 }},
 		{"invite level 100", func(s *c15RJScen) { s.Invite = 100 }},
+		{"allowed rooms: nobody may invite there", func(s *c15RJScen) { s.AllowedWeak = true }},
+		{"candidate weak here (strong in the allowed room)", func(s *c15RJScen) { s.Users["@auth:local"] = 0 }},
 		{"first user weak, second strong", rule0(func(r *c15RuleScen) {
 			r.Users = []c15MemberScen{{Type: "m.room.member", Key: "@weak:local"}, {Type: "m.room.member", Key: "@auth:local"}}
 		})},
@@ -671,7 +685,7 @@ func genC15RestrictedJoin(c *Ctx) {
 		for _, m := range muts {
 			s := c15RJOnly{Ver: v, RJ: c15GoodRJ()}
 			m.f(&s.RJ)
-			c.Run("C15.restricted_join", [][]byte{c15JSON(s)}, "C15.restricted_join", "", "restricted_join v"+v+" "+m.name)
+			c.Run("C15.restricted_join", [][]byte{c15JSON(s)}, "C15.restricted_join", "C15.prop.restricted_join", "restricted_join v"+v+" "+m.name)
 			c.Count("restricted_join/single/" + m.name)
 		}
 	}
@@ -687,7 +701,7 @@ func genC15RestrictedJoin(c *Ctx) {
 				s := c15RJOnly{Ver: v, RJ: c15GoodRJ()}
 				muts[i].f(&s.RJ)
 				muts[j].f(&s.RJ)
-				c.Run("C15.restricted_join", [][]byte{c15JSON(s)}, "C15.restricted_join", "", "restricted_join v"+v+" "+muts[i].name+" + "+muts[j].name)
+				c.Run("C15.restricted_join", [][]byte{c15JSON(s)}, "C15.restricted_join", "C15.prop.restricted_join", "restricted_join v"+v+" "+muts[i].name+" + "+muts[j].name)
 				c.Count("restricted_join/pair")
 			}
 		}
@@ -743,7 +757,7 @@ func genC15RestrictedJoin(c *Ctx) {
 			m := muts[c.Rng.Intn(16)]
 			m.f(&s.RJ)
 		}
-		c.Run("C15.restricted_join", [][]byte{c15JSON(s)}, "C15.restricted_join", "", "restricted_join random v"+s.Ver)
+		c.Run("C15.restricted_join", [][]byte{c15JSON(s)}, "C15.restricted_join", "C15.prop.restricted_join", "restricted_join random v"+s.Ver)
 		c.Count("restricted_join/random")
 	}
 }
